@@ -1351,6 +1351,12 @@ pub fn gen_names(m: &MSpec, rng: &mut Rng) -> NameSpec {
                 v.push((li, format!("$l_{}_{}", fi, li)));
             }
         }
+        if rng.chance(1, 5) {
+            // a stale entry (local index that does not exist), as some toolchains leave behind: it names nothing
+            // and must not cost any other name
+            let at = rng.usize(v.len() + 1);
+            v.insert(at, (np + nl + 3 + rng.below(4) as u32, format!("$stale_{}", fi)));
+        }
         if !v.is_empty() {
             n.locals.push((fi, v));
         }
@@ -1418,7 +1424,11 @@ pub fn gen_producers(rng: &mut Rng) -> Vec<(String, Vec<(String, String)>)> {
 }
 
 pub fn gen_customs(m: &mut MSpec, rng: &mut Rng) {
-    const NAMES: [&str; 14] = ["zzz", "aaa", "", "names", ".debu", "producers2", "target_features", "linking", "reloc.CODE", "dylink.0", "sourceMappingURL", "üñí", "name ", "debug_info"];
+    const NAMES: [&str; 20] = [
+        "zzz", "aaa", "", "names", ".debu", "producers2", "target_features", "linking", "reloc.CODE", "dylink.0", "sourceMappingURL", "üñí", "name ", "debug_info",
+        // near misses of the interpreted names: prefix/suffix/infix, case
+        "reloc..debug_line", "app.debug", "x.debug_info", ".Debug_info", "Name", "my.producers",
+    ];
     let n = rng.below(7);
     let places = [0u8, 1, 2, 3, 4, 5, 6, 7, 8, 9, 10, 11, 12, 254, 255];
     for i in 0..n {
